@@ -146,6 +146,13 @@ func c01Hub(x *Ctx) {
 		x.S.Stop("done")
 	})
 	x.OnFinal(func() {
+		if storedThenWithdrawn == "cancel-during-dial" && completedBefore() {
+			// the cancel found a completed pairing: nothing was pending, nothing was
+			// withdrawn (a completed pairing is ended with UnregisterRemoteSKI) - B stays
+			// a trusted peer for the rest of the run
+			x.Probe("cancel-after-completion")
+			return
+		}
 		pendingSeen := false
 		for _, e := range x.Events() {
 			if e.A != "A" {
